@@ -627,6 +627,8 @@ def install(cfg):
     os.open = sim_os_open
     os.write = sim_os_write
     os.close = sim_os_close
+    if cfg.get("stderr"):
+        sim.fired.append(f"stderr-broken:{cfg['stderr']}|<stderr>")
     if cfg.get("stdout_fail_after") is not None:
         sys.stdout = FailingStdout(sys.stdout, int(cfg["stdout_fail_after"]), sim)
     if any(f.get("op") == "stat" for f in sim.faults) or any((m.get("at") or {}).get("op") == "stat" for m in sim.mutations):
